@@ -27,7 +27,11 @@ ftxt = "\n".join(out) + "\n"
 rows = []
 for m in sorted(glob.glob(os.path.join(V, "seeded", "*", "meta.json"))):
     d = json.load(open(m))
-    rows.append("| %s-%s | %s | %s | %s | %s |" % (d["id"], d["variant"], d["property"], esc((d.get("summary") or "")[:220]), "yes" if d.get("confirmed") else "no", ", ".join(d.get("caught_by") or []) or ("-" if d.get("confirmed") else "n/a")))
+    first = ", ".join(d.get("caught_by") or []) or ("missed" if d.get("confirmed") else "n/a")
+    after = ", ".join(d.get("caught_by_after_strengthening") or [])
+    if after:
+        first += " -> **" + after + "** after: " + esc(d.get("strengthening", ""))
+    rows.append("| %s-%s | %s | %s | %s | %s |" % (d["id"], d["variant"], d["property"], esc((d.get("summary") or "")[:260]), "yes" if d.get("confirmed") else "no", first))
 stxt = "| seeded change | property | what it does | confirmed (builds, suite green, demo fails/passes) | caught by (quick tier) |\n|---|---|---|---|---|\n" + "\n".join(rows) + "\n"
 p = os.path.join(V, "DESIGN.md")
 s = open(p).read()
